@@ -532,10 +532,10 @@ pub fn build(raw: &RawGrammar) -> (Spec, Source) {
             spec
         }
     };
-    // the upper half of a scaled family's size range is taken as it is: an unlucky edit of a 100-statement grammar
-    // costs kiki tens of seconds, and conflict repair re-analyses the grammar once per round
-    let big_scaled = matches!(source, Source::SeedEdits | Source::SeedEditsRepair)
-        && scaled_choice(raw).map_or(false, |(kind, k)| k > SCALED_MAX[kind] / 2);
+    // scaled families beyond a small size are taken as they are: an unlucky edit costs kiki minutes (45 statement
+    // kinds with one edit: 126 s; 100 with three: 40 s — the conflicting automaton explodes before the conflict is
+    // seen), and conflict repair re-analyses the grammar once per round
+    let big_scaled = matches!(source, Source::SeedEdits | Source::SeedEditsRepair) && scaled_choice(raw).map_or(false, |(_, k)| k > 12);
     if matches!(source, Source::SeedEdits | Source::SeedEditsRepair) && !big_scaled {
         for e in &raw.edits {
             apply_edit(&mut spec, *e);
